@@ -51,6 +51,9 @@ func runC11(c *core.Ctx) {
 	h.configActionProgress("C11.3b promotion-rounds", "rounds")
 	c.Clause("C11.3 promotion only after a finished, fast-enough round; rounds finish only at their target")
 	h.promotionGate("C11.3 promotion")
+	// a promotion computed on the live configuration map would also rewrite
+	// the committed configuration the node falls back to
+	h.oneActionPerEntry("C11.3c one-action")
 	c.Clause("C11.4 leader yields when a committed configuration no longer lists it as voter; shutdown-on-remove only after commit")
 	h.leaderYields("C11.4 leader-yields")
 }
@@ -174,6 +177,24 @@ func (h H) promotionGate(rule string) {
 		}
 	}
 	h.C.Check(rule+" round-restart", "(*round).begin", okReset, h.fpos(bg), fmt.Sprintf("begin() starts a new round but leaves the fields finished() tests untouched (%v): a restarted round counts as finished at once, so the promotion gate passes without the node catching up again", keys(tested)))
+	// every round aims at the leader's last log index as it is when the round
+	// begins (a round that aims at the commit index is over at once while the
+	// node is still behind the leader's log)
+	nBeg := 0
+	for _, f := range h.P.Funcs() {
+		if f.Pkg == nil || f.Pkg.Pkg.Name() != "raft" {
+			continue
+		}
+		for k, c := range h.P.CallsTo(f, bg) {
+			if c.Parent() != f {
+				continue
+			}
+			nBeg++
+			arg := h.argStr(c, 1)
+			h.C.Check(rule+" round-target", h.site(f, bg, k), strings.HasSuffix(arg, ".storage.lastLogIndex"), h.pos(c.(ssa.Instruction)), "a catch-up round begins with target "+arg+" instead of the leader's last log index")
+		}
+	}
+	h.C.Floor(rule+" (round starts)", nBeg, 2)
 	h.C.Floor(rule+" (promotion paths)", nProm, 1)
 	h.C.Floor(rule+" (remove paths)", nRem, 1)
 	h.C.Floor(rule+" (round.finish sites)", nFin, 1)
@@ -226,6 +247,28 @@ func (h H) leaderYields(rule string) {
 		h.gate(rule+" shutdown-only-if-absent", site, s.Instr, core.BoolAtom("ok(Raft.storage.configs.Latest.Nodes[Raft.storage.nid])", false))
 		h.gate(rule+" shutdown-only-if-enabled", site, s.Instr, core.BoolAtom("Raft.shutdownOnRemove", true))
 		h.dominatedByCall(rule+" shutdown-after-commit", site, s.Instr, cm)
+		// …and only a node that was a member of the configuration the
+		// committed one replaces: a node that is being added reads, while it
+		// catches up, configurations that precede its addition (F30). The
+		// membership test reads configs.Committed before commitConfig
+		// overwrites it
+		sfi := h.P.Info(s.Fn)
+		was := sfi.MustCross(s.Instr, func(a core.Atom) bool {
+			return a.Implies(core.BoolAtom("ok(Raft.storage.configs.Committed.Nodes[Raft.storage.nid])", true))
+		})
+		before := false
+		core.Instrs(s.Fn, func(in ssa.Instruction) {
+			lk, ok := in.(*ssa.Lookup)
+			if !ok || !lk.CommaOk || sfi.Sym(lk.X).String() != "Raft.storage.configs.Committed.Nodes" {
+				return
+			}
+			for _, c := range h.P.CallsTo(s.Fn, cm) {
+				if core.Dominates(in, c.(ssa.Instruction)) {
+					before = true
+				}
+			}
+		})
+		h.C.Check(rule+" shutdown-only-former-member", site, was.OK && before, h.pos(s.Instr), fmt.Sprintf("the node shuts itself down as removed without having been a member of the configuration that the committed one replaces (membership in configs.Committed tested on every path: %v, read before commitConfig overwrites it: %v): a node that is being added commits, while catching up, a configuration that precedes its addition and stops: %s", was.OK, before, was.Witness))
 	}
 	h.C.Floor(rule+" (doClose(ErrNodeRemoved) sites)", n, 1)
 	// timeout-now is refused by non-voters before any effect
